@@ -10,7 +10,12 @@
 package main
 
 import (
+	"bytes"
 	"math"
+	"os"
+	"sync"
+
+	"github.com/ollama/ollama/fs/ggml"
 
 	"github.com/ollama/ollama/sample"
 	"verifharness/hx"
@@ -76,6 +81,54 @@ func expTable(scaled []sample.VTok) [][2]uint32 {
 		add(math.Float32frombits(t.Bits) - mx)
 	}
 	return out
+}
+
+// the vocabulary of the grammar cases: ids 0..2 are <unk>, <s>, </s> (end of generation), id 3+i is the single
+// character vocabChars[i].  Written once as a tokenizer-only GGUF file that llama.cpp's vocabulary loader reads.
+const vocabChars = "abcdefghijklmnopqrstuvwxyzABCDEFGHIJKLMNOPQRSTUVWXYZ0123456789"
+
+var (
+	vocabOnce sync.Once
+	vocab     *sample.Vocab
+	vocabErr  error
+)
+
+func theVocab() (*sample.Vocab, error) {
+	vocabOnce.Do(func() {
+		toks := []string{"<unk>", "<s>", "</s>"}
+		types := []int32{2, 3, 3}
+		scores := []float32{0, 0, 0}
+		for _, c := range vocabChars {
+			toks = append(toks, string(c))
+			types = append(types, 1)
+			scores = append(scores, -1)
+		}
+		kv := ggml.KV{
+			"general.architecture":            "llama",
+			"tokenizer.ggml.model":            "llama",
+			"tokenizer.ggml.tokens":           toks,
+			"tokenizer.ggml.scores":           scores,
+			"tokenizer.ggml.token_type":       types,
+			"tokenizer.ggml.bos_token_id":     uint32(1),
+			"tokenizer.ggml.eos_token_id":     uint32(2),
+			"tokenizer.ggml.unknown_token_id": uint32(0),
+		}
+		f, err := os.CreateTemp("", "c18-vocab-*.gguf")
+		if err != nil {
+			vocabErr = err
+			return
+		}
+		defer f.Close()
+		ts := []ggml.Tensor{{Name: "token_embd.weight", Kind: 0, Shape: []uint64{4}, WriterTo: bytes.NewReader(make([]byte, 16))}}
+		if err := ggml.WriteGGUF(f, kv, ts); err != nil {
+			vocabErr = err
+			return
+		}
+		vocab = sample.NewVocab(f.Name())
+		_, vocabErr = vocab.Load()
+		os.Remove(f.Name())
+	})
+	return vocab, vocabErr
 }
 
 func words(draws []uint32) []uint64 {
@@ -144,6 +197,62 @@ func main() {
 					return tr
 				})
 				res["stages"] = st
+			}
+			return res
+		case "grammar":
+			// grammar-constrained Sample: a fresh grammar  root ::= [accept]+  per call (so that the accepted set is the same
+			// for every call), scripted source delivering the draw pair (first pick, re-sample under the mask)
+			v, err := theVocab()
+			if err != nil {
+				return map[string]any{"harness_error": "vocab: " + err.Error()}
+			}
+			logits := u32s(c["logits"])
+			accept, _ := c["accept"].(string)
+			gs := "root ::= [" + accept + "]+"
+			pairs, _ := c["draws"].([]any)
+			res := map[string]any{}
+			var ids []int32
+			var errs []string
+			var useds []int
+			var rs [][]uint32
+			g0, err := sample.NewGrammar(v, gs)
+			if err != nil {
+				return map[string]any{"harness_error": "grammar: " + err.Error()}
+			}
+			rej := sample.VerifGrammarMask(g0, len(logits))
+			res["rejected"] = rej
+			var ct, cp, cm uint32
+			var ck int
+			for _, pr := range pairs {
+				ds := u32s(pr)
+				g, err := sample.NewGrammar(v, gs)
+				if err != nil {
+					return map[string]any{"harness_error": "grammar: " + err.Error()}
+				}
+				s, used := sample.VerifScriptSamplerG(temp, topp, minp, topk, words(ds), g)
+				s2, _ := sample.VerifScriptSampler(temp, topp, minp, topk, words(ds))
+				ct, cp, cm, ck, _ = sample.VerifParams(s)
+				var r []uint32
+				for range ds {
+					x, _ := sample.VerifDraw(s2)
+					r = append(r, x)
+				}
+				id, e := s.Sample(f32s(logits))
+				ids, errs, useds, rs = append(ids, id), append(errs, errS(e)), append(useds, used()), append(rs, r)
+			}
+			res["params"] = map[string]any{"temp": ct, "topp": cp, "minp": cm, "topk": ck}
+			res["ids"], res["errs"], res["used"], res["rs"] = ids, errs, useds, rs
+			if math.Float32frombits(ct) != 0 && len(logits) > 0 {
+				masked := make([]uint32, len(logits))
+				for i, b := range logits {
+					masked[i] = b
+					if rej[i] {
+						masked[i] = math.Float32bits(float32(math.Inf(-1)))
+					}
+				}
+				t1 := expTable(sample.VerifTemperature(sample.VerifTopK(toks(logits), ck), ct))
+				t2 := expTable(sample.VerifTemperature(sample.VerifTopK(toks(masked), ck), ct))
+				res["exp"] = append(t1, t2[4:]...)
 			}
 			return res
 		case "seed":
